@@ -354,6 +354,15 @@ def r_binders(ck: Checker) -> None:
     ck.guard("only positive symbolic atoms bind", sl, site, f"{lit}.sign == Sign.NoSign and {lit}.atom.ast_type == ASTType.SymbolicAtom and {lit}.atom.symbol.ast_type == ASTType.Function", "`not p(X)` and `not not p(X)` bind nothing")
     cond = "len(variables) == 1 and not has_unsafe_operation(arg) or len(collect_ast(arg, 'BinaryOperation')) + len(collect_ast(arg, 'UnaryOperation')) == 0"
     ck.guard("an argument binds its variables only if it is operation-free, or has one variable and only invertible operations", sl, site, cond, "gringo binds p(X+1) but not p(X+Y) or p(X*X)")
+    arg_loop = enclosing_loop(sl, site)
+    ck.need(arg_loop is not None, "arguments are examined one by one")
+    keys = {"free": "len(collect_ast(arg, 'BinaryOperation')) + len(collect_ast(arg, 'UnaryOperation')) == 0", "one": "len(variables) == 1", "unsafe": "has_unsafe_operation(arg)"}
+    keys = {k: next(iter(its.texts(site, ast.parse(v, mode="eval").body))) for k, v in keys.items()}  # in terms of what the locals stand for
+    for title, facts in (("an operation-free argument (also a tuple or function term with several variables) binds all its variables", {keys["free"]: True}),
+                         ("an argument with one variable under invertible operations binds it", {keys["free"]: False, keys["one"]: True, keys["unsafe"]: False})):
+        okb, nb_ = every_iteration_reaches(ck, sl, arg_loop, site, Pins.of(facts=facts))
+        ck.add(title, okb and nb_ > 0, sl, site, f"every such argument reaches `{fmt(site)}`: {okb}",
+               "gringo binds the variables of `cal((W,D))`: treating them as unbound makes group arguments look local (sum_chains then chains over all groups) and blocks sound rewrites")
     # comparison
     cp = ck.func("utils.ast:_collect_binding_information_from_comparison")
     itc = ck.interp(cp)
@@ -438,7 +447,7 @@ RULES = [
     Rule("C07.unique-variables", P7 + P4 + ("C15",), r_unique_variables),
     Rule("C07.FLOW.passthrough", P7, r_passthrough),
     Rule("C04.lexical", P4, r_lexical),
-    Rule("C04.TABLE.binders", P4 + ("C16", "C10"), r_binders),
+    Rule("C04.TABLE.binders", P4 + ("C16", "C10", "C13", "C14"), r_binders),
     Rule("C04.TABLE.head-binders", P4 + ("C14", "C16"), r_head_binders),
     Rule("C04.global-vars", P4 + ("C16", "C10", "C11", "C14", "C01"), r_global_vars),
 ]
